@@ -250,6 +250,7 @@ func runC06(e *Engine, r *Report) {
 	ruleRaftPredicates(e, r, "hasCommittedEntryAtCurrentTerm")
 	ruleReadyKeyedByCtx(e, r)
 	borrow(e, r, "C03", "GD-campaign-pred")
+	borrow(e, r, "C01", "MPT-lastapplied-after-apply")
 	ruleConfirmFromAllVoters(e, r)
 	ruleReadIndexRespIndex(e, r)
 	ruleHeartbeatRespProducer(e, r)
